@@ -66,11 +66,55 @@ impl Loader for GatedLoader<'_> {
     self.inner.max_redirects
   }
   fn load(&self, specifier: &ModuleSpecifier, options: LoadOptions) -> LoadFuture {
-    let _ = options;
-    let result = self.inner.answer(specifier);
+    // the inner loader answers at once (and logs the call); the answer is held back by the gate
+    let result = futures::executor::block_on(self.inner.load(specifier, options));
     let state = Rc::new(RefCell::new(GateState::default()));
     self.gates.borrow_mut().push(state.clone());
     Gate { state, result: Some(result) }.boxed_local()
+  }
+}
+
+impl<'a> GatedLoader<'a> {
+  pub fn new(inner: WorldLoader<'a>) -> Self {
+    GatedLoader { inner, gates: RefCell::new(vec![]) }
+  }
+  pub fn into_log(self) -> Vec<LoadCall> {
+    self.inner.log.into_inner()
+  }
+  /// Drives `fut` to completion; whenever it is pending, one closed gate chosen by the schedule is
+  /// opened. None when the poll budget is exhausted. Returns the largest number of outstanding loads.
+  pub fn drive<F: Future<Output = ()>>(&self, fut: F, schedule: &mut Rng) -> Option<usize> {
+    let mut fut = Box::pin(fut);
+    let waker = Waker::noop();
+    let mut cx = Context::from_waker(waker);
+    let mut polls = 0;
+    let mut max_outstanding = 0;
+    loop {
+      match fut.as_mut().poll(&mut cx) {
+        Poll::Ready(()) => return Some(max_outstanding),
+        Poll::Pending => {
+          polls += 1;
+          if polls > 100_000 {
+            return None;
+          }
+          let gates = self.gates.borrow();
+          let closed: Vec<&Rc<RefCell<GateState>>> = gates.iter().filter(|g| !g.borrow().open).collect();
+          max_outstanding = max_outstanding.max(closed.len());
+          if closed.is_empty() {
+            continue;
+          }
+          let pick = schedule.below(closed.len());
+          let w = {
+            let mut st = closed[pick].borrow_mut();
+            st.open = true;
+            st.waker.take()
+          };
+          if let Some(w) = w {
+            w.wake();
+          }
+        }
+      }
+    }
   }
 }
 
@@ -233,6 +277,10 @@ fn first_line_diff(a: &str, b: &str) -> String {
 
 pub fn run(cfg: &RunCfg) {
   let n = if cfg.tier == Tier::Quick { 600 } else { 8000 };
+  // registry (stage B2) worlds under completion schedules, prefer_cached_jsr_versions mostly on
+  let nj = if cfg.tier == Tier::Quick { 500 } else { 8000 };
   let tier = cfg.tier;
-  run_cases(cfg, n, |seed, k| gen_case(seed, k, tier));
+  run_cases(cfg, n + nj, |seed, k| {
+    if k < n { gen_case(seed, k, tier) } else { crate::props::jsr::gen_case_scheduled(seed, k - n, tier) }
+  });
 }
